@@ -675,6 +675,14 @@ def m_opt_from_residual(ctx):
     return none()
 
 
+@M.reg("core::convert::From::from")
+def m_from_trait(ctx):
+    ts = ty_args(ctx)  # Self, T
+    if len(ts) >= 2:
+        return convert(ctx, ctx.args[0], ts[1], ts[0], "from")
+    return ctx.top_ret()
+
+
 @M.reg("<T as core::convert::Into<U>>::into", "<T as core::convert::From<T>>::from")
 def m_into(ctx):
     ts = ty_args(ctx)
